@@ -1086,6 +1086,34 @@ def rule_done(env, shared):
                             and (res_t is None or unref(f[1]) == res_t or res_t[0] not in ("ret", "call")):
                         none_blocks.append(bb)
             k = "DONE-SET|%s" % env.fname(b)
+            if not none_blocks and not b.is_closure and (b.info or {}).get("container") in ("inherent", "free") \
+                    and not (b.info or {}).get("exported") and res_t is not None and unref(ev.local(ctx, 0)) == res_t:
+                # a private helper that hands back what `next()` returned (`unsafe fn pull_one(&self) -> Option<T>`): every
+                # caller must set the flag on the paths where that value is None
+                from r_ticket import all_callers
+                callers = [(cb, cbb) for (cb, cbb) in all_callers(env, b.def_) if cb.def_ != b.def_]
+                okc = bool(callers)
+                for (cb, cbb) in callers:
+                    csa = F.impl_self_adt(cb) or sa
+                    cctx = env.ctx(cb, csa, T.world)
+                    tcall = cb.term(cbb)
+                    rt_c = unref(ev.local(cctx, tcall["dest"]["l"])) if not tcall["dest"]["p"] else None
+                    cdone = {e2.info["top_bb"] for e2 in T.direct_events(cb, csa) if e2.kind == "atomic"
+                             and e2.info["op"] == "store" and T.role_of(e2.info["place"])[0] == "done"}
+                    cinf = {x for x in range(len(cb.blocks)) if not cb.blocks[x]["cleanup"] and rt_c is not None and any(
+                        f[0] == "is_some" and f[2] is True and unref(f[1]) == rt_c for f in block_facts(ev, cctx, x))}
+                    tgt2 = tcall.get("target")
+                    if tgt2 is None or (tgt2 not in cdone and (tgt2 in cb.exits() or
+                                                                cb.paths_avoiding(tgt2, set(cb.exits()), cdone | cinf))):
+                        okc = False
+                if k in seen:
+                    continue
+                seen.add(k)
+                if okc:
+                    out.append(Ob("DONE-SET", k, "ok", e.loc(), "the helper hands back what next() returned; every caller sets the "
+                                  "end flag where that is None", True))
+                    continue
+                seen.discard(k)
             if not none_blocks:
                 # the result is consumed by iterator adaptors (take_while/collect): evidence is the collected length
                 has_len_guard = False
